@@ -47,6 +47,7 @@ type Store struct {
 	gets     []cid.Cid       // every Get call in order (incl. failing ones)
 	faults   map[cid.Cid]FaultKind
 	keepRefs bool
+	slow     map[cid.Cid]time.Duration // reads of these blocks take that long (or until the context ends)
 	addFail  func(nth int, c cid.Cid) error // optional; nth = number of Add calls so far (0-based)
 	gate     *Gate
 	events   atomic.Int64
@@ -76,6 +77,20 @@ func (s *Store) SetKeepRefs(on bool) {
 	s.mu.Lock()
 	defer s.mu.Unlock()
 	s.keepRefs = on
+}
+
+// SetSlow makes every read of block c take d (0: as fast as the others again). The read honours its context.
+func (s *Store) SetSlow(c cid.Cid, d time.Duration) {
+	s.mu.Lock()
+	defer s.mu.Unlock()
+	if s.slow == nil {
+		s.slow = map[cid.Cid]time.Duration{}
+	}
+	if d <= 0 {
+		delete(s.slow, c)
+		return
+	}
+	s.slow[c] = d
 }
 
 func (s *Store) SetDelay(d time.Duration) {
@@ -352,6 +367,9 @@ func (d *dagSvc) Get(ctx context.Context, c cid.Cid) (format.Node, error) {
 	}
 	gate := s.gate
 	delay := s.delay
+	if d, ok := s.slow[c]; ok && d > delay {
+		delay = d
+	}
 	s.mu.Unlock()
 
 	if delay > 0 {
